@@ -107,6 +107,21 @@ def make_hook(body, F, unknown_preds):
     return hook
 
 
+def _bound_from(b, src):
+    """{type: place key} of the locals a body binds from the value `src` holds (pattern bindings of an Option payload,
+    a dereferenced index result) -- found by dataflow, so that renaming the bindings changes nothing."""
+    from mir import place_str
+    out = {}
+    for bi, si, s in b.stmts():
+        rv = s["rv"]
+        if rv["k"] == "use" and not place_proj(s["p"]):
+            p = op_place(rv["o"])
+            if p is not None and p["l"] == src and place_proj(p):
+                out.setdefault(b.locals[s["p"]["l"]], place_str(s["p"], b))
+    return out
+
+
+
 def quote_rule(ck, F):
     R = "QUOTE"
     nq = ck.need(F.one, "expressions::utils::name_needs_quoting")
@@ -156,9 +171,15 @@ def quote_rule(ck, F):
     tg = nq.switch_targets_by_variant(sw)
     entry = tg.get("Some")
     Inq = Interp(nq, F, call_hook=make_hook(nq, F, unknown_preds))
+    nq_t = nq.term(hdr[0])
+    bnd = _bound_from(nq, nq_t["dest"]["l"]) if not place_proj(nq_t["dest"]) else {}
+    if "char" not in bnd or "usize" not in bnd:
+        ck.anchor("name_needs_quoting: the (index, character) bindings of the loop were not found")
+        return
+    k_char, k_idx = bnd["char"], bnd["usize"]
 
     def needs_quote(c, pos):
-        ps = Inq.run({"char": c, "i": pos}, start=entry, stops={hdr[0]})
+        ps = Inq.run({k_char: c, k_idx: pos}, start=entry, stops={hdr[0]})
         res = set()
         for p in ps:
             if p.events and p.events[-1][0] == "stop":
@@ -179,9 +200,15 @@ def quote_rule(ck, F):
     from mir import loop_header_of
     hdr_ci = loop_header_of(ci, idx[0])
     Ici = Interp(ci, F, call_hook=make_hook(ci, F, unknown_preds))
+    ci_t = ci.term(idx[0])
+    bnd_ci = _bound_from(ci, ci_t["dest"]["l"]) if not place_proj(ci_t["dest"]) else {}
+    if "char" not in bnd_ci:
+        ck.anchor("consume_identifier: the binding of the character read was not found")
+        return
+    k_next = bnd_ci["char"]
 
     def ident_rest(c):
-        ps = Ici.run({"next_char": c}, start=start_ci, stops={hdr_ci} if hdr_ci is not None else ())
+        ps = Ici.run({k_next: c}, start=start_ci, stops={hdr_ci} if hdr_ci is not None else ())
         res = set()
         for p in ps:
             if p.events and p.events[-1][0] == "stop":
@@ -204,9 +231,15 @@ def quote_rule(ck, F):
     stops2 = {bi for bi, t in nt.calls() if (nt.callee_q(t) or "").startswith("ironcalc_base::expressions::lexer::Lexer::") and
               (nt.callee_q(t) or "").rsplit("::", 1)[-1] not in ("read_next_char",)}
     Int = Interp(nt, F, call_hook=make_hook(nt, F, unknown_preds), max_paths=64)
+    nt_t = nt.term(rn[0])
+    bnd_nt = _bound_from(nt, nt_t["dest"]["l"]) if not place_proj(nt_t["dest"]) else {}
+    if "char" not in bnd_nt:
+        ck.anchor("next_token: the binding of the character read was not found")
+        return
+    k_first = bnd_nt["char"]
 
     def ident_first(c):
-        ps = Int.run({"char": c}, start=entry2, stops=stops2)
+        ps = Int.run({k_first: c}, start=entry2, stops=stops2)
         res = set()
         for p in ps:
             if p.events and p.events[-1][0] == "stop":
